@@ -1259,6 +1259,8 @@ def main(outfile):
     py2lean_counter.main_counter(os.path.join(os.path.dirname(outfile), 'TranslatedCounter.lean'), sys.modules[__name__])
     import py2lean_asyncinit                                     # separate module: async-init add-on, InitAsync, ValuePoll, small routines (C05)
     py2lean_asyncinit.main_asyncinit(os.path.join(os.path.dirname(outfile), 'TranslatedAsyncInit.lean'), sys.modules[__name__])
+    import py2lean_ctor                                          # separate module: Event / Repeat constructors, task monitor (C18)
+    py2lean_ctor.main_ctor(os.path.join(os.path.dirname(outfile), 'TranslatedCtor.lean'), write_if_changed)
 
 if __name__ == '__main__':
     main(sys.argv[1])
